@@ -34,7 +34,7 @@ DELEGATED = [
     ("count", ("a",)), ("count", ("",)), ("startswith", ("a",)), ("endswith", ("b",)),
     ("isalpha", ()), ("isspace", ()), ("isdigit", ()), ("partition", ("a",)),
     ("rpartition", (" ",)), ("rsplit", ("a",)), ("rsplit", ()), ("rsplit", (",", 1)),
-    ("isupper", ()), ("islower", ()),
+    ("isupper", ()), ("islower", ()), ("encode", ()), ("encode", ("ascii", "replace")), ("isascii", ()),
 ]
 
 
@@ -65,6 +65,9 @@ def invented(cell, F):
 
 def classify(case, problems):
     spec = case["spec"]
+    text = "".join(t for t, _ in spec)
+    if case["method"] == "splitlines" and any(c in text for c in "\r\x0b\x0c\x1c\x1d\x1e\x85\u2028\u2029"):
+        return "C15:splitlines-other-line-boundaries"
     if case["method"] == "splitlines" and case["args"] and case["args"][0]:
         return "C15:splitlines-keepends"
     if any("shared" in p for p in problems) and spec and spec[0][0] == "" and len(spec) > 1:
@@ -93,7 +96,7 @@ def pieces_positions(text, method, args, kwargs):
         out, pos = [], 0
         for p in parts:
             end = pos + len(p)
-            out.append((pos, end if keep else end - (1 if p.endswith("\n") else 0)))
+            out.append((pos, end if keep else pos + len(p.splitlines()[0])))
             pos = end
         return out
     raise ValueError(method)
@@ -283,7 +286,7 @@ def calls_for(text):
     return out
 
 
-ALPHA = ["a", "b", "A", " ", ",", "\n", "\t", "ß", "1", ".", "+"]
+ALPHA = ["a", "b", "A", " ", ",", "\n", "\t", "ß", "1", ".", "+", "\n", "\r", "\r\n", "\x0b", "\x0c", "\x1c", "\x85", "\u2028"]
 
 
 def run(ctx):
